@@ -1,6 +1,6 @@
 CONSTANTS
   NDocs = 120
-  NOperators = 44
+  NOperators = 45
   MaxSite = 14
 INIT Init
 NEXT Next
